@@ -7,7 +7,7 @@ Parts (all rebuilt from the current tree of VERIF_REPO on every run):
   queue        intrusive_heap and thread_unsafe_event_loop op sequences vs Proto/TimerQueue
   seqdiff      timed_single_thread_context op sequences (one fixed schedule, virtual clock) vs
                Proto/TimerQueue
-  timerop      all schedules (DFS / random / PCT, virtual clock) of 5 scenarios on the real
+  timerop      all schedules (DFS / random / PCT, virtual clock) of 6 scenarios on the real
                timed_single_thread_context: monitors + trace inclusion in Proto/TimerOp
   monitors     2 more scenarios (schedule_after, 3 timers, past due times): monitors only
   sbs          stop requested before start() on thread_unsafe_event_loop, op-state in poisoned storage
@@ -392,7 +392,7 @@ class QueuePart:
             if mon:
                 sq, out = min(mon, key=lambda b: len(b[0]))
                 what = out.split("MONITOR", 1)[1].strip()
-                verdict.add("event_loop: " + " ".join(what.split()[:-1])[:80], f"{sq}: {out} ({len(mon)} sequences)",
+                verdict.add("event_loop: " + what.split(" op")[0].split(":")[0].split(" ; ")[0][:80], f"{sq}: {out} ({len(mon)} sequences)",
                             dict(stream="event_loop", sequence=sq, real=out, replay_cmd=f"echo '{sq}' | {exe} loop"))
             if bad:
                 sq, out, ans = min(bad, key=lambda b: len(b[0]))
@@ -493,13 +493,23 @@ class SeqDiffPart:
             os.environ.pop("C07_SEQ", None)
             cov["evaluations"] += len(seqs[b:b + BATCH])
             if r["fails"]:
-                sched, why, h = r["fails"][0]
-                # find the sequence: the last completed one + 1
-                done = [e for e in h.split(" ; ") if e.startswith("T0 seq ")]
-                k = b + len(done)
-                k = min(k, len(seqs) - 1)
-                verdict.add("seqdiff: " + why.split(" && ")[0][:100], f"sequence {text[k]!r}: {why}",
-                            dict(stream="seqdiff", sequence=text[k], replay_cmd=f"C07_SEQ='{text[k]}' {exe} --scenario seqdiff --mode dfs --preemptions 0 --max-execs 1 --no-clock-choices"))
+                # a monitor fired (or deadlock / crash) somewhere in the batch: rerun the sequences one by one
+                # and report the shortest failing one
+                culprit = None
+                for sq in sorted(text[b:b + BATCH], key=len):
+                    os.environ["C07_SEQ"] = sq
+                    r1 = vlib.run_rt(exe, "seqdiff", "dfs", 0, 1, seed, extra=["--no-clock-choices", "--max-steps", "400000"])
+                    os.environ.pop("C07_SEQ", None)
+                    if r1["fails"]:
+                        culprit = (sq, r1["fails"][0][1])
+                        break
+                if culprit is None:
+                    culprit = ("/".join(text[b:b + BATCH]), r["fails"][0][1])
+                sq, why = culprit
+                import re as _re
+                site = _re.sub(r"\bop\d+", "opN", why.split(" && ")[0])[:110]
+                verdict.add("seqdiff: " + site, f"sequence {sq!r}: {why[:400]}",
+                            dict(stream="seqdiff", sequence=sq, replay_cmd=f"C07_SEQ='{sq}' {exe} --scenario seqdiff --mode dfs --preemptions 0 --max-execs 1 --no-clock-choices"))
                 continue
             got = {}
             for _, _, h in r["hist"]:
@@ -558,7 +568,7 @@ class MonitorOnlyPart:
         cov["parts_wall_s"][self.name] = round(time.time() - t0, 1)
 
 
-SCENARIOS = ["one_cancel", "two_order", "two_equal", "stop_before_start", "two_cancel"]
+SCENARIOS = ["one_cancel", "two_order", "two_equal", "stop_before_start", "two_cancel", "three_equal"]
 
 
 def run(tier, seed, replay=None):
